@@ -10,20 +10,25 @@ OBLIGATION_TABLE = """
 C14_X1|Iora.C14.X1_balanced|an accepted document's Start/End/Empty tokens are properly nested with byte-equal names (arbitrary bytes, all option values)
 C14_X1_dom|Iora.C14.X1_dom_never_unbalanced|DomBuilder never sees an unbalanced end tag and never ends with open elements on tokens produced by the tokenizer
 C14_X2_slices|Iora.C14.X2_slices_in_bounds|every name/text/attribute slice of every token lies inside the input; so do the token offset and the error offset
-C14_X2_reads|Iora.C14.X2_no_oob_read|no out-of-range read and no exhausted loop budget, for arbitrary bytes and options
+C14_X2_indexed|Iora.C14.X2_reads_are_indexed|under the cursor invariant peek()/_input[_cur+i] are bs[pos+i]? (none exactly when the index is >= size) and eof()/_cur+i>=size are those comparisons
+C14_X2_reads|Iora.C14.X2_no_oob_read|every read is a partial function under exactly the C++ guards; no read is out of range, no loop budget exhausted, the dead re-entry of readText unreachable: arbitrary bytes, options, positions
 C14_X3_progress|Iora.C14.X3_next_advances|every successful next() strictly advances the cursor
 C14_X3_count|Iora.C14.X3_token_count|a run ends within length+1 successful calls: at most `length` tokens, then Eof or an error
 C14_X4|Iora.C14.X4_limits|every token that was produced respects maxDepth/maxAttrsPerElement/maxNameLength/maxTextSpan/maxTotalTokens (limit checked before the token is produced)
 C14_X5_only|Iora.C14.X5_decode_sound|decodeEntities output is exactly: literal bytes, the five predefined entities, UTF-8 of numeric references
+C14_X5_complete|Iora.C14.X5_decode_complete|decodeEntities succeeds iff the input is well formed (literals, the five entities, numeric references that encode) and then yields exactly the decoded text
 C14_X5_unknown|Iora.C14.X5_unknown_entity_rejected|a reference that is neither predefined nor numeric is an error at its offset, never expanded
 C14_X5_utf8|Iora.C14.X5_encodeUtf8_scalar|encodeUtf8 = String.utf8EncodeChar on every Unicode scalar value
 C14_X5_utf8_reject|Iora.C14.X5_encodeUtf8_rejects|encodeUtf8 fails exactly on surrogates and values above 0x10FFFF
 C14_X5_numeric|Iora.C14.X5_numeric_value|a numeric reference denotes the hex/decimal value of its digits reduced modulo 2^32 (identity below 2^32; the wrap only shows on ill-formed input)
 C14_X5_total|Iora.C14.X5_decode_terminates|decodeEntities never exhausts its loop budget
-C14_X6_sax|Iora.C14.X6_sax_is_token_list|SAX callback sequence = pull token list, result = accepted
+C14_X6_sax_dispatch|Iora.C14.X6_sax_dispatch|for every subset of registered callbacks: events = pull tokens filtered by "member registered", in order, each in the member of its kind; unregistered tokens skipped; result = accepted
+C14_X6_sax|Iora.C14.X6_sax_is_token_list|with all nine callbacks registered the SAX callback sequence is the whole pull token list
 C14_X6_dom|Iora.C14.X6_dom_flatten|the DOM, flattened in document order, is the pull token list with names copied and text/attribute values decoded
 C14_X7_skeleton|Iora.C14.X7_skeleton_faithful|tokens(render d) = events d for every element/attribute skeleton and every formatting choice (quotes, white space in tags, <a/> vs <a></a>)
 C14_X7_tree|Iora.C14.X7_tree_faithful|every forest of element trees within the limits, however formatted, is accepted and reported as its pre-order events
+C14_X7_dom_tree|Iora.C14.X7_dom_of_tree|the DOM built for a rendered forest, walked in document order, is the forest's own events with attribute values decoded
+C14_N1_qname|Iora.C14.N1_splitQName|splitQName splits at the first colon (prefix colon-free), none iff no colon, prefix:local round-trips
 C14_X7_text|Iora.C14.X7_leading_space_kept|F29 repaired: a text node that starts with white space is reported with it
 C14_gen|Iora.C14.gen_conformance|constants regenerated from the header (token kinds, defaults, entity chain, character classes, UTF-8 bounds, messages) are what the model uses
 """
@@ -439,7 +444,7 @@ def parse_tokens(body):
                 n, v = a.split("=")
                 attrs.append((parse_slice(n), parse_slice(v)))
         toks.append({"kind": m.group(1), "name": parse_slice(m.group(2)), "text": parse_slice(m.group(3)), "attrs": attrs,
-                     "sc": int(m.group(5)), "depth": int(m.group(6)), "off": int(m.group(7)), "line": int(m.group(8)), "col": int(m.group(9))})
+                     "sc": int(m.group(5)), "depth": int(m.group(6)), "off": int(m.group(7)), "line": int(m.group(8)), "col": int(m.group(9)), "q": m.group(10)})
     return toks
 
 
@@ -522,6 +527,14 @@ def monitor_generic(doc, opts, pull, sax, dom):
     m = re.search(r"@(\d+):", fin)
     if m and int(m.group(1)) > n:
         bad.append("X2: final offset %s outside the %d-byte input" % (m.group(1), n))
+    # splitQName: prefix / local name split at the FIRST colon
+    for t in toks:
+        if t["name"] is not None and t["name"][0] + t["name"][1] <= n:
+            nb = sl(doc, t["name"])
+            i = nb.find(b":")
+            want = "-" if i < 0 else "%d/%d" % (i, len(nb) - i - 1)
+            if t["q"] != want:
+                bad.append("N1: splitQName(%r) = %s, the first colon gives %s" % (nb, t["q"], want))
     # X3: token count
     if len(toks) > n:
         bad.append("X3: %d tokens from %d bytes" % (len(toks), n))
@@ -640,9 +653,15 @@ def first_diff(a, b):
 
 
 # ------------------------------------------------------------------ expat cross-check (supporting)
+try:
+    import xml.parsers.expat as _expat
+except ImportError:          # no pyexpat in this Python: the cross-check is skipped and that is recorded in the evidence
+    _expat = None
+
+
 def expat_dump(doc):
     """DOM dump in the harness format as expat sees the document (None if expat rejects it)."""
-    import xml.parsers.expat as ex
+    ex = _expat
     p = ex.ParserCreate()
     p.buffer_text = False
     p.ordered_attributes = True
@@ -754,8 +773,114 @@ def case_for(doc, opts, cat, **kw):
     o = opt_str(opts)
     h = hexs(doc)
     c = {"cat": cat, "ops": ["pull %s %s" % (o, h), "sax %s %s" % (o, h), "dom %s %s" % (o, h)], "doc": doc, "opts": opts}
+    extra = kw.pop("extra_ops", ())
+    for e in extra:
+        if e[0] == "saxm":
+            c["ops"].append("saxm %d %s %s" % (e[1], o, h))
+            c["mask"] = e[1]
+        else:
+            c["ops"].append("%s %s %s" % (e[0], o, h))
     c.update(kw)
     return c
+
+
+SAX_BITS = {"Xd": 0, "Dt": 1, "S": 2, "E": 3, "Em": 4, "T": 5, "Cd": 6, "Cm": 7, "Pi": 8}
+
+
+def rand_mask(rng):
+    return rng.choice([0, 511, 4, 8, 32, 4 | 8 | 16, 32 | 64, 128 | 256 | 2, rng.below(512), rng.below(512)])
+
+
+def monitor_extra(c, lines):
+    """saxm / dom0 / domh against what pull and dom said (implementation output only)."""
+    bad = []
+    pull, sax, dom = lines.get("pull"), lines.get("sax"), lines.get("dom")
+    sm = lines.get("saxm")
+    if sm is not None and (sm.startswith("throw") or sm.startswith("crash:") or "WRONG-CALLBACK" in sm):
+        bad.append("X6: runSax with callbacks %03x registered: %s" % (c["mask"], sm[:80]))
+    elif sm is not None and pull is not None and " | " in pull and " | " in sm:
+        if True:
+            body = pull.rsplit(" | ", 1)[0]
+            toks = [] if body == "-" else body.split(";")
+            want = [t for t in toks if (c["mask"] >> SAX_BITS.get(t.split(" ", 1)[0], 99)) & 1]
+            sbody, sfin = sm.rsplit(" | ", 1)
+            if sbody != (";".join(want) or "-"):
+                bad.append("X6: runSax with callbacks %03x delivered %d events, the pull tokens filtered by the registered members are %d: got %s"
+                           % (c["mask"], 0 if sbody == "-" else sbody.count(";") + 1, len(want), first_diff(sbody, ";".join(want) or "-")))
+            if sax is not None and sfin != sax.rsplit(" | ", 1)[1]:
+                bad.append("X6: runSax result with a subset of callbacks (%s) differs from the result with all (%s)" % (sfin[:50], sax.rsplit(" | ", 1)[1][:50]))
+    d0 = lines.get("dom0")
+    if d0 is not None and dom is not None:
+        want = dom if dom.startswith("doc[") else "null"
+        if d0.startswith("throw") or d0.startswith("crash:"):
+            bad.append("X2/UB: DomBuilder::build(parser, nullptr): %s" % d0[:80])
+        elif d0 != want:
+            bad.append("X6: DomBuilder::build(parser, nullptr) = %s but with an error sink %s" % (d0[:80], dom[:80]))
+    dh = lines.get("domh")
+    if dh is not None and dom is not None:
+        if dh.startswith("throw") or dh.startswith("crash:"):
+            bad.append("X2/UB: Node helpers: %s" % dh[:80])
+        elif not dom.startswith("doc["):
+            if dh != "null":
+                bad.append("X6: Node helpers answered %s for a document that was not built" % dh[:60])
+        else:
+            try:
+                want = helpers_of_dump(dom)
+            except (ValueError, IndexError, RecursionError) as e:
+                want = None
+            if want is not None and dh != want:
+                bad.append("X6: Node::getTextContent/getAttribute/childByName disagree with the tree: got %s want %s" % (first_diff(dh, want), first_diff(want, dh)))
+    return bad
+
+
+def parse_dump(s):
+    """`doc[...]` -> ("-", [], children); element = (namehex, [(nhex, vhex)], children); other nodes = strings"""
+    pos = [4]
+    def nodes():
+        out = []
+        while s[pos[0]] != "]":
+            if s[pos[0]] == ";":
+                pos[0] += 1
+            if s.startswith("E:", pos[0]):
+                j = s.index("{", pos[0])
+                name = s[pos[0] + 2:j]
+                k = s.index("}", j)
+                attrs = [tuple(a.split("=")) for a in s[j + 1:k].split(",")] if k > j + 1 else []
+                pos[0] = k + 2
+                ch = nodes()
+                pos[0] += 1
+                out.append((name, attrs, ch))
+            else:
+                j = pos[0]
+                while s[j] not in ";]":
+                    j += 1
+                out.append(s[pos[0]:j])
+                pos[0] = j
+        return out
+    if not s.startswith("doc["):
+        raise ValueError("not a document dump")
+    ch = nodes()
+    return ("-", [], ch)
+
+
+def helpers_of_dump(dom):
+    """the `domh` line the helper methods must give for this DOM (computed from the dump alone)"""
+    root = parse_dump(dom)
+    out = []
+    def hexcat(parts):
+        r = "".join(p for p in parts if p != "-")
+        return r or "-"
+    def walk(n):
+        name, attrs, ch = n
+        text = hexcat([c[2:] for c in ch if isinstance(c, str) and c[:2] in ("T:", "C:")])
+        a = ",".join(next(v for (n2, v) in attrs if n2 == n1) for (n1, _) in attrs)
+        elems = [(i, c) for i, c in enumerate(ch) if not isinstance(c, str)]
+        cidx = ",".join(str(next(i for i, c2 in elems if c2[0] == c[0])) for _, c in elems)
+        out.append("%s t=%s a=%s c=%s m=~~" % (name, text, a, cidx))
+        for _, c in elems:
+            walk(c)
+    walk(root)
+    return ";".join(out)
 
 
 def gen_tree_cases(rng, count, feats):
@@ -769,7 +894,38 @@ def gen_tree_cases(rng, count, feats):
         exp = expected_lines(doc, g.toks, dom)
         for f in g.feat:
             feats[f] = feats.get(f, 0) + 1
-        cases.append(case_for(doc, DEFAULT_OPTS, "tree", expect=exp, expat=(i % 4 != 3), metrics=dict(g.metrics, tokens=len(g.toks))))
+        cases.append(case_for(doc, DEFAULT_OPTS, "tree", expect=exp, expat=(i % 4 != 3), metrics=dict(g.metrics, tokens=len(g.toks)),
+                              extra_ops=[("saxm", rand_mask(rng)), ("domh",), ("dom0",)] if i % 2 == 0 else [("saxm", rand_mask(rng))]))
+    return cases
+
+
+def gen_large_tree_cases(rng, count, feats):
+    """A few generated documents of 20..150 KB through the whole lockstep (the tokenizer model is linear; only its slice extraction is
+    quadratic in the number of tokens, which is what bounds the size here)."""
+    cases = []
+    for _ in range(count):
+        target = rng.choice([20000, 40000, 80000, 120000])
+        g = Gen(rng, expat_safe=True, size=3)
+        g.emit(b"<root>")
+        g.depth = 1
+        g.metrics["depth"] = 1
+        g.metrics["name"] = 4
+        g.tok(kind="S", name=(1, 4), depth=1, off=0)
+        kids = []
+        while len(g.out) < target:
+            if rng.chance(1, 2):
+                g.emit(g.ws(lo=1))
+            kids.append(g.element(rng.choice([1, 2, 3])))
+        off = len(g.out)
+        g.emit(b"</root>")
+        g.tok(kind="E", name=(off + 2, 4), depth=1, off=off)
+        doc = bytes(g.out)
+        dom = "doc[E:%s{}[%s]]" % (hexs(b"root"), ";".join(kids))
+        exp = expected_lines(doc, g.toks, dom)
+        for f in g.feat:
+            feats[f] = feats.get(f, 0) + 1
+        cases.append(case_for(doc, DEFAULT_OPTS, "large-tree", expect=exp, expat=True, metrics=dict(g.metrics, tokens=len(g.toks)),
+                              extra_ops=[("saxm", rand_mask(rng)), ("domh",), ("dom0",)]))
     return cases
 
 
@@ -839,7 +995,10 @@ def gen_mutation_cases(rng, ndocs, per_doc_cap, all_bytes_for=0):
         for m in muts:
             o = DEFAULT_OPTS if rng.chance(3, 4) else tuple(rng.choice([0, 1, 2, 3, 256]) for _ in range(5))
             h = hexs(m)
-            cases.append({"cat": "mutation", "ops": ["pull %s %s" % (opt_str(o), h), "dom %s %s" % (opt_str(o), h)], "doc": m, "opts": o, "nosax": True})
+            ops = ["pull %s %s" % (opt_str(o), h), "dom %s %s" % (opt_str(o), h)]
+            if len(cases) % 3 == 0:
+                ops.append("dom0 %s %s" % (opt_str(o), h))
+            cases.append({"cat": "mutation", "ops": ops, "doc": m, "opts": o, "nosax": True})
     return cases
 
 
@@ -869,6 +1028,83 @@ def gen_default_boundary_cases(rng):
     return cases
 
 
+def gen_real_default_cases():
+    """The REAL default maxTextSpan (1 MiB): text and attribute values of exactly the limit and one byte more, through lockstep
+    (pull and SAX only: the model's decoder is quadratic in the length of one text, so the DOM of these is checked by `domstat`)."""
+    D, A, N, T, K = DEFAULT_OPTS
+    cases = []
+    for t, fits in ((T, True), (T + 1, False)):
+        for doc, kind in ((b"<a>" + b"t" * t + b"</a>", "textTooLarge"), (b"<a v='" + b"v" * t + b"'/>", "attrTooLong"),
+                          (b"<a>" + b" \n" * 8 + b"t" * (t - 16) + b"</a>", "textTooLarge")):
+            h = hexs(doc)
+            cases.append({"cat": "real-default", "ops": ["pull %s %s" % (opt_str(DEFAULT_OPTS), h), "saxm 32 %s %s" % (opt_str(DEFAULT_OPTS), h)],
+                          "doc": doc, "opts": DEFAULT_OPTS, "mask": 32, "limit": "text", "need": t, "value": T, "fits": fits, "err": kind})
+    return cases
+
+
+def spec_doc(spec):
+    """[[piece, count], ...] -> bytes (how corpus files and the impl-only list write documents too large to spell out)"""
+    return b"".join(p.encode("latin-1") * n for p, n in spec)
+
+
+def gen_impl_only_cases(quick):
+    """Cases that only the real code runs (the model driver keeps one stack frame per token, so token lists of 10^5..10^6 entries
+    are out of its reach): judged by expected answers derived from the document's construction."""
+    D, A, N, T, K = DEFAULT_OPTS
+    out = []
+    def add(op, opts, spec, want, what):
+        out.append({"cat": "impl-only", "op": op, "opts": opts, "spec": spec, "want": want, "what": what})
+    add("domstat", DEFAULT_OPTS, [["<a>", 1], ["t", T], ["</a>", 1]], r"^nodes=3 depth=2 destroyed$", "DOM of a text node of exactly the default maxTextSpan")
+    add("domstat", DEFAULT_OPTS, [["<a>", 1], ["t", T + 1], ["</a>", 1]], r"^null textTooLarge @1048579:1:1048580$", "text node one byte over the default maxTextSpan")
+    add("domstat", DEFAULT_OPTS, [["<a v='", 1], ["v", T + 1], ["'/>", 1]], r"^null attrTooLong @", "attribute value one byte over the default maxTextSpan")
+    add("pullstat", DEFAULT_OPTS, [["<a><![CDATA[", 1], ["c", T + 1], ["]]><!--", 1], ["m", T + 1], ["--></a>", 1]],
+        r"^tokens=4 depth=1 attrs=0 name=1 text=0 inbounds=1 \| eof stack=0$", "CDATA and comment beyond maxTextSpan (the option binds Text tokens and attribute values only)")
+    add("pullstat", DEFAULT_OPTS, [["<r>", 1], ["<i/>", 200000], ["</r>", 1]], r"^tokens=200002 depth=2 .* inbounds=1 \| eof stack=0$", "maxTotalTokens=0 is unbounded")
+    add("pullstat", (D, A, N, T, 65536), [["<r>", 1], ["<i/>", 65533], ["</r>", 1]], r"^tokens=65535 .* \| eof stack=0$", "65535 tokens with maxTotalTokens=65536")
+    add("pullstat", (D, A, N, T, 65536), [["<r>", 1], ["<i/>", 65534], ["</r>", 1]], r"^tokens=65536 .* \| err tokenLimit @", "65536 tokens with maxTotalTokens=65536 (budget tested before the Eof call)")
+    add("pullstat", (D, A, N, T, 65536), [["<r>", 1], ["<i/>", 70000], ["</r>", 1]], r"^tokens=65536 .* \| err tokenLimit @", "token budget stops a longer document at 65536 tokens")
+    deep = 400000
+    add("pullstat", (deep, A, N, T, K), [["<a>", deep], ["</a>", deep]], r"^tokens=800000 depth=400000 .* inbounds=1 \| eof stack=0$", "maxDepth=400000, nesting 400000")
+    add("pullstat", (deep, A, N, T, K), [["<a>", deep + 1], ["</a>", deep + 1]], r"^tokens=400000 depth=400000 .* \| err depthExceeded @", "maxDepth=400000, nesting 400001")
+    add("domstat", (deep, A, N, T, K), [["<a>", deep], ["</a>", deep]], r"^nodes=400001 depth=400000 destroyed$", "FC14a: DOM of nesting 400000 built and DESTROYED (recursive ~Node overflowed the stack)")
+    add("domstat", (100000, A, N, T, K), [["<a>", 1], ["<b>x</b>", 100000], ["</a>", 1]], r"^nodes=200002 depth=3 destroyed$", "wide DOM")
+    return out
+
+
+def run_impl_only(ctx, hb, cases, stats):
+    import re as _re
+    from vlib.core import classify_crash
+    for c in cases:
+        doc = spec_doc(c["spec"])
+        op = "%s %s %s" % (c["op"], opt_str(c["opts"]), hexs(doc))
+        out, rc, err = ctx.run_lines([hb], [op], timeout=300)
+        got = out[0] if out else "crash:" + classify_crash(rc, err)
+        ctx.count_case(c["op"] + repr(c["spec"]) + repr(c["opts"]), nontrivial=True)
+        stats["impl_only"] = stats.get("impl_only", 0) + 1
+        if not _re.search(c["want"], got):
+            ctx.violation("property", "X4/X2: %s: `%s %s <%s>` -> %s (expected /%s/)" % (c["what"], c["op"], opt_str(c["opts"]), c["spec"], got[:160], c["want"]),
+                          {"op": c["op"], "options": c["opts"], "document_spec": c["spec"], "observed": got, "expected_regex": c["want"], "stderr": err[-1500:],
+                           "how": "document = concatenation of piece*count; run harness/c14_xml.cpp with `<op> <options> <hex document>`"}, found_input=True)
+
+
+OBSERVATION_DOCS = [
+    ("non-ASCII element names are rejected (names are ASCII letters, digits, `_ : - .` only)", "<\u00e9l\u00e9ment/>".encode("utf-8")),
+    ("a UTF-8 BOM becomes a top-level Text token", b"\xef\xbb\xbf<a/>"),
+    ("`>` inside a DOCTYPE system literal ends the DOCTYPE token", b'<!DOCTYPE a SYSTEM "x>y"><a/>'),
+    ("no white space is required between attributes", b'<a b="1"c="2"/>'),
+    ("duplicate attributes are accepted (getAttribute answers the first)", b'<a b="1" b="2"/>'),
+    ("`<` is accepted inside attribute values", b'<a b="<"/>'),
+    ("`--` is accepted inside comments, `]]>` inside text", b"<a><!-- a -- b -->x]]>y</a>"),
+    ("end tag names are compared byte for byte (case-sensitive)", b"<a></A>"),
+    ("several root elements and top-level text are accepted", b"x<a/><b/>y"),
+    ("a name may contain several colons; splitQName splits at the first", b'<a:b:c d:e:f="1" :g="2"></a:b:c>'),
+]
+
+
+def gen_observation_cases():
+    return [case_for(d, DEFAULT_OPTS, "observation", what=w, extra_ops=[("domh",), ("dom0",)]) for w, d in OBSERVATION_DOCS]
+
+
 def gen_mutated_tree_cases(rng, count):
     """1-3 random byte mutations (substitute / delete / insert / duplicate a span / truncate) of mid-size generated documents."""
     cases = []
@@ -895,7 +1131,7 @@ def gen_mutated_tree_cases(rng, count):
             elif d:
                 d[pos] ^= 1 << rng.below(8)
         o = DEFAULT_OPTS if rng.chance(3, 4) else tuple(rng.choice([0, 1, 2, 3, 8, 256]) for _ in range(5))
-        cases.append(case_for(bytes(d), o, "mutated-tree"))
+        cases.append(case_for(bytes(d), o, "mutated-tree", extra_ops=[("dom0",), ("saxm", rand_mask(rng)), ("domh",)]))
     return cases
 
 
@@ -909,7 +1145,7 @@ def gen_random_cases(rng, count):
         else:
             d = bytes(rng.choice(alphabet) for _ in range(n))
         o = DEFAULT_OPTS if rng.chance(1, 2) else tuple(rng.choice([0, 1, 2, 5, 256, 2 ** 64 - 1]) for _ in range(5))
-        cases.append(case_for(d, o, "random"))
+        cases.append(case_for(d, o, "random", extra_ops=[("dom0",), ("saxm", rand_mask(rng))]))
     return cases
 
 
@@ -922,7 +1158,7 @@ def gen_entity_cases(rng, count):
              b"&nbsp;", b"&#x41", b"&# 65;", b"&#+65;", b"&#x 41;", b"&lt;;", b"&&amp;;", b"&#00000000000000000065;", b"&#x000000000000000041;",
              b"&amp;lt;", b"x&#x20AC;y", b"&#128512;", b"&#x1F600;", b"&e;", b"&xxe;", b"&#x80;", b"&#x7FF;", b"&#x800;", b"&#xFFFF;", b"&#x10000;", b"&#127;", b"&#128;"]
     for f in fixed:
-        cases.append({"cat": "entity", "ops": ["dec %s" % hexs(f)], "raw": f})
+        cases.append({"cat": "entity", "ops": ["dec %s" % hexs(f), "dec0 %s" % hexs(f)], "raw": f})
     names = [b"lt", b"gt", b"amp", b"apos", b"quot", b"nbsp", b"LT", b"l", b"ltt", b"", b"#", b"#x", b"amp ", b"e", b"xxe", b"copy"]
     for i in range(count):
         parts = []
@@ -941,7 +1177,7 @@ def gen_entity_cases(rng, count):
             else:
                 parts.append(rng.bytes(rng.range(1, 3)))
         raw = b"".join(parts)
-        cases.append({"cat": "entity", "ops": ["dec %s" % hexs(raw)], "raw": raw})
+        cases.append({"cat": "entity", "ops": ["dec %s" % hexs(raw), "dec0 %s" % hexs(raw)], "raw": raw})
     cps = [0, 1, 0x7F, 0x80, 0x7FF, 0x800, 0xD7FF, 0xD800, 0xDBFF, 0xDC00, 0xDFFF, 0xE000, 0xFFFD, 0xFFFF, 0x10000, 0x10FFFF, 0x110000, 0x1FFFFF, 0x200000,
            0x7FFFFFFF, 0x80000000, 0xFFFFFFFF]
     for i in range(count):
@@ -960,7 +1196,7 @@ def gen_xxe_cases(rng):
             b'<!DOCTYPE a [<!ENTITY % p SYSTEM "http://127.0.0.1:1/x.dtd"> %p;]><a/>',
             b'<!DOCTYPE a [<!ENTITY a "&b;&b;"><!ENTITY b "&c;&c;"><!ENTITY c "x">]><a>&a;</a>',
             b'<a>&nbsp;</a>', b'<a b="&copy;"/>']
-    return [case_for(d, DEFAULT_OPTS, "xxe") for d in docs]
+    return [case_for(d, DEFAULT_OPTS, "xxe", extra_ops=[("dom0",), ("domh",)]) for d in docs]
 
 
 # ------------------------------------------------------------------ run
@@ -1030,7 +1266,8 @@ def run(ctx: Ctx):
     if ok_build:
         ctx.audit(MODULES, OBLIGATIONS)
         if not quick:
-            ctx.leanchecker(MODULES + ["IoraModel.Lemmas.Xml", "IoraModel.Lemmas.XmlEntities", "IoraModel.Lemmas.XmlDom", "IoraModel.Lemmas.XmlRender", "IoraModel.Model.Xml"])
+            ctx.leanchecker(MODULES + ["IoraModel.Lemmas.XmlClosed", "IoraModel.Lemmas.Xml", "IoraModel.Lemmas.XmlExplicit", "IoraModel.Lemmas.XmlEntities", "IoraModel.Lemmas.XmlDom",
+                                       "IoraModel.Lemmas.XmlRender", "IoraModel.Lemmas.XmlTransfer", "IoraModel.Model.Xml"])
     else:
         ctx.cov["obligations"] = len(OBLIGATIONS)
     hb = ctx.build_harness("harness/c14_xml.cpp", sanitize=True)
@@ -1041,6 +1278,7 @@ def run(ctx: Ctx):
     if hb:
         cases = load_corpus()
         cases += gen_tree_cases(rng.fork("tree"), 4000 * scale, feats)
+        cases += gen_large_tree_cases(rng.fork("large"), 3 if quick else 12, feats)
         cases += gen_limit_cases(rng.fork("limit"), 400 * scale)
         cases += gen_default_boundary_cases(rng.fork("dflt"))
         cases += gen_mutation_cases(rng.fork("mut"), 40 * (1 if quick else 8), 1000 if quick else 3000, all_bytes_for=(2 if quick else 15))
@@ -1048,18 +1286,38 @@ def run(ctx: Ctx):
         cases += gen_random_cases(rng.fork("rand"), 4000 * scale)
         cases += gen_entity_cases(rng.fork("ent"), 1500 * scale)
         cases += gen_xxe_cases(rng)
-        res = ctx.lockstep("xml", hb, cases)
+        cases += gen_observation_cases()
+        cases += gen_real_default_cases()
+        for c in cases:
+            if c.get("impl_only"):          # corpus witnesses that only the real code can run (see gen_impl_only_cases)
+                c["cat"] = "corpus-impl-only"
+        impl_only = [c for c in cases if c.get("impl_only")]
+        cases = [c for c in cases if not c.get("impl_only")]
+        try:
+            res = ctx.lockstep("xml", hb, cases, timeout=900)
+        except RuntimeError as e:
+            # not a verdict about the code: the model driver or the harness did not finish (time-out, killed, short output)
+            print("[C14] machinery failure: the lockstep run did not complete (%s); no VIOLATION is reported for this" % str(e)[:300], flush=True)
+            raise
+        for c in impl_only:
+            spec = {"cat": "impl-only", "op": c["op"], "opts": tuple(c["opts"]), "spec": c["spec"], "want": c["want"], "what": c.get("what", c.get("file", "corpus"))}
+            run_impl_only(ctx, hb, [spec], stats)
+            dist["corpus-impl-only"] = dist.get("corpus-impl-only", 0) + 1
+        io = gen_impl_only_cases(quick)
+        run_impl_only(ctx, hb, io, stats)
+        dist["impl-only"] = len(io)
         n_mismatch = 0
         for c, impl, model in res:
             cat = c["cat"]
             dist[cat] = dist.get(cat, 0) + 1
             fails = []
             nontrivial = True
-            if cat in ("tree", "limit", "limit-random", "mutation", "random", "xxe", "default-boundary", "mutated-tree"):
+            if cat in ("tree", "limit", "limit-random", "mutation", "random", "xxe", "default-boundary", "mutated-tree", "observation", "real-default", "large-tree"):
                 doc = c["doc"]
                 opts = tuple(c["opts"])
                 lines = {op.split()[0]: l for op, l in zip(c["ops"], impl)}
                 fails += monitor_generic(doc, opts, lines.get("pull"), lines.get("sax"), lines.get("dom"))
+                fails += monitor_extra(c, lines)
                 acc = " | eof " in (lines.get("pull") or "")
                 stats["accepted" if acc else "rejected"] += 1
                 nontrivial = acc or len(lines.get("pull", "")) > 40
@@ -1074,13 +1332,17 @@ def run(ctx: Ctx):
                         fails.append("X5: an internal entity was expanded")
                 if c.get("expect"):
                     fails += monitor_tree(c, impl)
-                if cat in ("limit", "default-boundary"):
+                if cat == "real-default" and not c["fits"] and (" | err %s @" % c["err"]) not in lines["pull"]:
+                    fails.append("X4: %d bytes against the default maxTextSpan: expected %s, got %s" % (c["need"], c["err"], lines["pull"][-80:]))
+                if cat in ("limit", "default-boundary", "real-default"):
                     if c["fits"] and not acc:
                         fails.append("X4: document within every limit rejected (%s=%d, needs %d): %s" % (c["limit"], c["value"], c["need"], lines["pull"][-70:]))
                     if not c["fits"] and acc:
                         fails.append("X4: limit %s=%d not enforced (document needs %d)" % (c["limit"], c["value"], c["need"]))
                     stats["limit_accept" if acc else "limit_reject"] += 1
-                if cat == "tree" and c.get("expat") and not fails:
+                if cat in ("tree", "large-tree") and c.get("expat") and not fails and _expat is None:
+                    stats["expat_unavailable"] = stats.get("expat_unavailable", 0) + 1
+                elif cat in ("tree", "large-tree") and c.get("expat") and not fails:
                     r = expat_compare(doc, lines["dom"])
                     if r is None:
                         stats["expat_rejected"] += 1
@@ -1096,6 +1358,10 @@ def run(ctx: Ctx):
                 f = monitor_scalar(c["ops"][0], impl[0], stats)
                 if f:
                     fails.append(f)
+                if len(impl) > 1:       # dec0: decodeEntities without an error sink must decide the same
+                    want0 = impl[0] if impl[0].startswith("ok ") else "err"
+                    if impl[1] != want0:
+                        fails.append("X5: decodeEntities(in, out) without an error sink = %s, with one %s" % (impl[1][:60], impl[0][:60]))
             elif cat == "defaults":
                 if impl[0] != "%d %d %d %d %d" % DEFAULT_OPTS:
                     fails.append("X4: Options{} defaults are %s, the generator assumes %s" % (impl[0], DEFAULT_OPTS))
@@ -1120,17 +1386,26 @@ def run(ctx: Ctx):
     ctx.extra["repo_tree_sha"] = ctx.repo_tree_sha(ANCHOR_FILES)
     ctx.extra["not_proved"] = [
         "X7 in full — text, references, CDATA, comments, PIs and DOCTYPE *inside* the rendered document: proved are the element/attribute skeleton for every "
-        "well-nested tag sequence and every forest of element trees with every formatting choice (X7_skeleton_faithful, X7_tree_faithful) and the white-space/text "
-        "interaction of F29 at the level of next() (X7_leading_space_kept); the rest of X7 is checked differentially (generator-rendered trees compared slice for "
-        "slice with exact offsets/line/column, DOM compared with the generator's strings, expat cross-check)",
+        "well-nested tag sequence and every forest of element trees with every formatting choice (X7_skeleton_faithful, X7_tree_faithful), the DOM of such a forest "
+        "(X7_dom_of_tree) and the white-space/text interaction of F29 at the level of next() (X7_leading_space_kept); the rest of X7 is checked differentially "
+        "(generator-rendered trees compared slice for slice with exact offsets/line/column, DOM compared with the generator's strings, expat cross-check)",
         "line/column values of tokens and errors are tied by lockstep only (no theorem states what they should be)",
-        "X5 completeness direction (every well-formed reference string decodes) is not stated as a theorem; soundness, rejection of undefined entities, numeric value and "
-        "UTF-8 correctness are"]
+        "reads inside decodeEntities/appendCharRef (`in[i]`, `ent[0]`, `entBody[1]`, `entBody[i]`) are modelled by list patterns, not as guarded partial reads: that they stay "
+        "in range is decided by ASan on the entity stream (exact-size heap copies), not proved; the tokenizer's reads are proved (X2)",
+        "Node::getTextContent/getAttribute/childByName: modelled and tied by lockstep plus a monitor that recomputes them from the DOM dump; no theorem beyond their definitions",
+        "documents whose token list is longer than ~10^5 entries (the model driver keeps one stack frame per token) and the DOM of a single text/attribute value near 1 MiB (the "
+        "model's decoder appends byte by byte to a list) are run on the real code only (`impl-only` cases with answers derived from the document's construction)"]
     ctx.extra["observations"] = [
-        "numeric references accumulate in 32 bits and wrap on ill-formed input (&#x100000041; -> 'A'); '&#x;' decodes to U+0000; both mirrored by the model, outside the well-formed subset",
+        "numeric references accumulate in 32 bits and wrap on ill-formed input (&#x100000041; -> 'A'); '&#x;' decodes to U+0000; both mirrored by the model (X5_numeric_value), outside the well-formed subset",
         "a document with exactly maxTotalTokens tokens is rejected (the budget test precedes the call that would emit Eof): stricter than the limit, never laxer",
-        "white space between markup (and white-space-only text) is never reported; multiple roots, text outside the root and an empty document are accepted (balance is the only structural rule)"]
+        "white space between markup (and white-space-only text) is never reported; multiple roots, text outside the root and an empty document are accepted (balance is the only structural rule)",
+        "maxTextSpan is documented as `Max contiguous text span in bytes`: it binds Text tokens and attribute values (Token.Limits); CDATA sections, comments, PI data and DOCTYPE are not subject to it "
+        "(a 1 MiB+1 CDATA section and comment are accepted with the defaults: impl-only case)",
+        "`<?xml ...?>` is reported as a ProcessingInstruction named xml; TokenKind::XmlDecl is never produced (RunOk.kinds)",
+        "Options::permissive and Options::namespaceProcessing are read nowhere in the header (Gen.Xml.unusedOptionFields)"] + [w for w, _ in OBSERVATION_DOCS]
     ctx.assumptions += ["inputs shorter than 2^31 bytes (size_t arithmetic and readDoctype's `int bracket` do not wrap); option values < 2^64",
+                        "stack depth: with FC14a repaired nothing in xml.hpp recurses per nesting level (tokenizer, DomBuilder::build and ~Node are iterative); a CALLER that walks the DOM recursively "
+                        "must bound maxDepth itself (the default 256 is safe)",
                         "IORA_XML_THROW_ON_ERROR=0 (the default); with 1, fail() throws instead of returning false"]
     return ctx.finish(level="proof", rule="a case = one document (or one entity string / code point) with one option setting, run through the real pull, SAX and DOM interfaces; "
                       "distinct = distinct op lists; non-trivial = the document is accepted or yields at least one token before the error")
@@ -1140,8 +1415,12 @@ def report_property(ctx, hb, c, impl, model, fails):
     if not ctx.violation_budget("property", fails[0]):
         ctx.violation("property", fails[0])
         return
-    obj = {"ops": c["ops"], "observed": impl, "expected_by_model": model, "failures": fails[:5], "category": c["cat"]}
-    if "doc" in c:
+    big = "doc" in c and len(c["doc"]) > 8192
+    cut = (lambda l: l if not big or l is None else [x[:400] + "...(%d chars)" % len(x) if len(x) > 400 else x for x in l])
+    obj = {"ops": cut(c["ops"]), "observed": cut(impl), "expected_by_model": cut(model), "failures": fails[:5], "category": c["cat"]}
+    if big:
+        obj["document"] = "%d bytes, first 80: %r, last 40: %r" % (len(c["doc"]), c["doc"][:80], c["doc"][-40:])
+    elif "doc" in c:
         obj["document"] = c["doc"].decode("utf-8", "replace")
     if c.get("expect"):
         obj["expected_by_generator"] = c["expect"]
